@@ -1,6 +1,7 @@
 import ChythonModel.Model.C05Rules
 import ChythonModel.Model.C05Thiele
 import ChythonModel.Model.C05Search
+import ChythonModel.Model.C05Full
 import ChythonModel.Spec.Kekule
 /-!
 Line-protocol driver for C05.
@@ -16,6 +17,9 @@ Line-protocol driver for C05.
 `tnf <molK> k (<len> <atoms…>)×k`                  → `freak` | `<0|1> | <mol wire>`     (`thieleNoFix`)
 `thr <molK> <molT> k (<len> <atoms…>)×k`          → `ok` | `reject`                   (`aromatisedOnlyEligible`)
 `fix <mol> r (c (p (<q> <n>)×p)×c)×r`             → `raise` | `<faithful> <keep> <seen…> | <mol wire>` (`fixRings` over the regenerated table)
+`kekf <mol> <maps as in fix> k (<len> <atoms…>)×k <buffer_size> c (<adj> d <db…> p <pyr…>)×c`
+                                                   → `raise` | `crash:…` | `bad-components` | `<0|1> | <mol wire>` (`kekuleFull`: the whole of
+                                                     `kekule()`: value returned and molecule left behind)
 `ks <buffer_size> <limit> k (<atom> <deg> <nbrs…>)×k d <double_bonded…> p <pyrroles…>`
                                                    → `<done|raise|crash:<Exc>|more> dom=<0|1> | <n>,<m>,<b> … ; …` (`kekuleComponent`:
                                                      the yielded paths of `_kekule_component` in order, verbatim;
@@ -148,6 +152,43 @@ def handleKs (xs : List Int) : String :=
     | _ => "badwire"
   | _ => "badwire"
 
+def parseComps : Nat → List Int → Option (List C05F.Comp × List Int)
+  | 0, rest => some ([], rest)
+  | n + 1, k :: rest => do
+    let (rings, r1) ← parseAdj k.toNat rest
+    match r1 with
+    | d :: r2 =>
+      if d < 0 ∨ r2.length < d.toNat then none else
+      match r2.drop d.toNat with
+      | p :: r3 =>
+        if p < 0 ∨ r3.length < p.toNat then none else
+        let (tl, r4) ← parseComps n (r3.drop p.toNat)
+        some (⟨rings, (r2.take d.toNat).map Int.toNat, (r3.take p.toNat).map Int.toNat⟩ :: tl, r4)
+      | [] => none
+    | [] => none
+  | _ + 1, [] => none
+
+/-- `kekf <mol> <maps> k (<len> <atoms…>)×k <buffer_size> c (<adj> d <db…> p <pyr…>)×c` -/
+def handleKekf (xs : List Int) : String :=
+  match Mol.parse xs with
+  | some (m, rest) =>
+    match parseMaps rest with
+    | some (maps, k :: rest1) =>
+      match parseRings k.toNat rest1 with
+      | some (sssr, buf :: nc :: rest2) =>
+        match parseComps nc.toNat rest2 with
+        | some (cs, []) =>
+          if !m.WF then "malformed" else
+          match C05F.kekuleFull fixRules m maps sssr buf.toNat cs with
+          | .ok ret k => s!"{if ret then 1 else 0} | {k.render}"
+          | .invalid => "raise"
+          | .crash e => "crash:" ++ e
+          | .badInput => "bad-components"
+        | _ => "badwire"
+      | _ => "badwire"
+    | _ => "badwire"
+  | none => "badwire"
+
 def handle (line : String) : String :=
   match words line with
   | [] => "empty"
@@ -243,6 +284,7 @@ def handle (line : String) : String :=
           | _ => "badwire"
         | none => "badwire"
       | "ks" => handleKs xs
+      | "kekf" => handleKekf xs
       | _ => "badop"
 
 def main : IO Unit := ChythonModel.Py.runDriver handle
